@@ -165,9 +165,17 @@ func (rt *referenceTracker) processRowUpdate(table, uuid string, row *ovsdb.RowU
 	switch {
 	case row.Delete != nil:
 		rt.deleted[uuid] = table
-		updateRefs = getReferenceModificationsFromRow(&rt.dbModel, table, uuid, row.Old, row.Old)
+		updateRefs = getReferenceModificationsFromRows(&rt.dbModel, table, uuid, row.Old, nil)
 	case row.Modify != nil:
-		updateRefs = getReferenceModificationsFromRow(&rt.dbModel, table, uuid, row.Modify, row.Old)
+		if row.Old != nil && row.New != nil {
+			// the modify row alone does not tell which references are gone
+			// when an optional value or a map value is replaced, or when the
+			// same row is referenced from several entries of a map, so
+			// compare the references held before and after
+			updateRefs = getReferenceModificationsFromRows(&rt.dbModel, table, uuid, row.Old, row.New)
+		} else {
+			updateRefs = getReferenceModificationsFromRow(&rt.dbModel, table, uuid, row.Modify, row.Old)
+		}
 	case row.Insert != nil:
 		if !isRoot(&rt.dbModel, table) {
 			// track rows added that are not part of the root set, we might need
@@ -175,7 +183,7 @@ func (rt *referenceTracker) processRowUpdate(table, uuid string, row *ovsdb.RowU
 			rt.added[uuid] = table
 			rt.tracked[uuid] = table
 		}
-		updateRefs = getReferenceModificationsFromRow(&rt.dbModel, table, uuid, row.Insert, nil)
+		updateRefs = getReferenceModificationsFromRows(&rt.dbModel, table, uuid, nil, row.Insert)
 	}
 
 	// (lazy) initialize existing references to the same rows from the database
@@ -587,6 +595,73 @@ func (rt *referenceTracker) getRow(table, uuid string) (*ovsdb.Row, error) {
 func (rt *referenceTracker) rowExists(table, uuid string) (bool, error) {
 	model, err := rt.getModel(table, uuid)
 	return model != nil, err
+}
+
+// getReferencesFromRow returns the references made from a row
+func getReferencesFromRow(dbModel *model.DatabaseModel, table, uuid string, row *ovsdb.Row) database.References {
+	refs := database.References{}
+	if row == nil {
+		return refs
+	}
+	add := func(column string, fromValue bool, value interface{}) {
+		to, ok := value.(ovsdb.UUID)
+		if !ok {
+			return
+		}
+		refTable := refTable(dbModel, table, column, fromValue)
+		if refTable == "" {
+			return
+		}
+		spec := database.ReferenceSpec{ToTable: refTable, FromTable: table, FromColumn: column, FromValue: fromValue}
+		if _, ok := refs[spec]; !ok {
+			refs[spec] = database.Reference{}
+		}
+		refs[spec][to.GoUUID] = []string{uuid}
+	}
+	for column, value := range *row {
+		if column == "_uuid" || dbModel.Schema.Table(table).Column(column) == nil {
+			continue
+		}
+		switch v := value.(type) {
+		case ovsdb.UUID:
+			add(column, false, v)
+		case ovsdb.OvsSet:
+			for _, elem := range v.GoSet {
+				add(column, false, elem)
+			}
+		case ovsdb.OvsMap:
+			for key, val := range v.GoMap {
+				add(column, false, key)
+				add(column, true, val)
+			}
+		}
+	}
+	return refs
+}
+
+// getReferenceModificationsFromRows returns the difference between the
+// references made from a row before (old) and after (new) an update: the
+// references that are only made from one of them.
+func getReferenceModificationsFromRows(dbModel *model.DatabaseModel, table, uuid string, old, new *ovsdb.Row) database.References {
+	oldRefs := getReferencesFromRow(dbModel, table, uuid, old)
+	newRefs := getReferencesFromRow(dbModel, table, uuid, new)
+	refs := database.References{}
+	diff := func(a, b database.References) {
+		for spec, tos := range a {
+			for to, from := range tos {
+				if _, ok := b[spec][to]; ok {
+					continue
+				}
+				if _, ok := refs[spec]; !ok {
+					refs[spec] = database.Reference{}
+				}
+				refs[spec][to] = from
+			}
+		}
+	}
+	diff(oldRefs, newRefs)
+	diff(newRefs, oldRefs)
+	return refs
 }
 
 func getReferenceModificationsFromRow(dbModel *model.DatabaseModel, table, uuid string, modify, old *ovsdb.Row) database.References {
